@@ -17,8 +17,9 @@ type envCfg struct {
 		Sc uint32   `json:"sc"`
 		Kp []uint32 `json:"kp"`
 	} `json:"g"`
-	T uint32 `json:"t"`
-	O uint32 `json:"o"`
+	T   uint32 `json:"t"`
+	O   uint32 `json:"o"`
+	Own []int  `json:"own"` // actual key stored at each keypair index (the same public key may be listed several times)
 }
 
 func (c *envCfg) proto() *envelope.EnvelopeConfig {
@@ -55,7 +56,14 @@ func init() {
 			}
 			obs := map[string]any{"i": i}
 			pan := vio.Try(func() {
-				privs, pubs := envKeys(i)
+				privs, pubs0 := envKeys(i)
+				pubs := pubs0
+				if len(c.Cfg.Own) == len(pubs0) {
+					pubs = nil
+					for _, o := range c.Cfg.Own {
+						pubs = append(pubs, pubs0[o])
+					}
+				}
 				payload := make([]byte, 1+rng.Intn(200))
 				rng.Read(payload)
 				ctx := fmt.Sprintf("verif envelope ctx %d", rng.Intn(1000))
